@@ -9,7 +9,9 @@ import (
 	"time"
 
 	"github.com/uber/kraken/lib/healthcheck"
+	"github.com/uber/kraken/utils/log"
 	"github.com/uber/kraken/utils/stringset"
+	"go.uber.org/zap"
 	"verifharness/hlib"
 )
 
@@ -349,12 +351,13 @@ func c23seeds(ctx *hlib.Ctx) {
 }
 
 func c23(ctx *hlib.Ctx) {
+	log.SetGlobalLogger(zap.NewNop().Sugar()) // state.failed logs every transition
 	r := hlib.NewRng(ctx.Seed)
 	c23seeds(ctx)
 	if ctx.Tier == "thorough" {
 		// exhaustive small scope (validates the correspondence; not the proof): host 0 absent /
 		// passing / failing, host 1 absent / passing -> lists of size 0, 1, 2 -- every history of
-		// length <= 5, for Fails, Passes in 1..3
+		// length <= 4 for Fails, Passes in 1..3, and of length 5 for (Fails,Passes) in {(2,2),(3,2),(2,3),(1,3)}
 		alpha := []c23call{cl(), cl(0, c23Pass), cl(0, c23Fail), cl(1, c23Pass), cl(0, c23Pass, 1, c23Pass), cl(0, c23Fail, 1, c23Pass)}
 		cnt := 0
 		var rec func(prefix []c23call, depth int)
@@ -362,6 +365,11 @@ func c23(ctx *hlib.Ctx) {
 			if len(prefix) > 0 {
 				for f := 1; f <= 3; f++ {
 					for p := 1; p <= 3; p++ {
+						// all 9 settings up to length 4; at length 5 the settings whose thresholds can
+						// still be crossed in both directions within 5 calls
+						if len(prefix) == 5 && !((f == 2 && p == 2) || (f == 3 && p == 2) || (f == 2 && p == 3) || (f == 1 && p == 3)) {
+							continue
+						}
 						cnt++
 						c23emit(ctx, c23case{f, p, append([]c23call{}, prefix...)}, "exhaustive", cnt%16 == 0)
 					}
